@@ -241,6 +241,13 @@ def _tokens(t: Term) -> "list[tuple[str, Term]] | None":
         if l[0] in ("REL", "PARENT", "NOSUF"):
             return [("parts", l)]
         return None
+    if tag == "boolop" and t[1] == "or" and len(t[2]) == 2 and is_const(t[2][1], "."):
+        # `".".join(p.parts) or "."`: the text of the path p in dotted notation (the empty path is ".")
+        first = unbox(t[2][0])
+        inner = _tokens(first) if first[0] == "mcall" and first[2] == "join" else None
+        if inner is not None and len(inner) == 1 and inner[0][0] == "parts":
+            return inner
+        return None
     if tag == "phi":
         return None
     l = loc(t)
@@ -400,6 +407,25 @@ def alternatives(t: Term, limit: int = 8) -> list[tuple[Formula, Term]]:
         inner = alternatives(t[1], limit)
         if len(inner) > 1:
             return [(g, (t[0], v, *t[2:])) for g, v in inner]
+        return [(TRUE, t)]
+    if t[0] == "mcall" and t[2] == "join" and len(t[3]) == 1 and unbox(t[3][0])[0] in ("tuple", "list"):
+        # choices among the joined pieces (also inside spliced parts): one alternative per combination
+        disp = unbox(t[3][0])
+        combos_: list[tuple[Formula, list[Term]]] = [(TRUE, [])]
+        for piece in disp[1]:
+            starred = piece[0] == "star"
+            alts_ = alternatives(piece[1] if starred else piece, limit)
+            new_ = []
+            for g, acc in combos_:
+                for g2, v2 in alts_:
+                    h = f_and([g, g2])
+                    if h != FALSE:
+                        new_.append((h, acc + [("star", v2) if starred else v2]))
+            combos_ = new_
+            if len(combos_) > limit:
+                return [(TRUE, t)]
+        if len(combos_) > 1:
+            return [(g, ("mcall", t[1], "join", ((disp[0], tuple(acc)),), t[4])) for g, acc in combos_]
         return [(TRUE, t)]
     if t[0] == "fstr" or (t[0] == "binop" and t[1] == "+"):
         parts = list(t[1]) if t[0] == "fstr" else [t[2], t[3]]
